@@ -732,7 +732,7 @@ def translate_handler(meth, tables, cmio=False):
         bt.stmt(s, 1)
     kinds = {p: bt.table_params.get(p, 'int') for p in params}
     sig = ' '.join(f'({lname(p)} : {"Int" if kinds[p] == "int" else "Tbl" + kinds[p]})' for p in params)
-    out = [f'def {meth.name} {{μ : Type}} [MemLike μ] (cfg : Cfg) {sig} (s : St μ) : St μ := Id.run do'.replace('  ', ' ')]
+    out = [f'@[sim_handler] def {meth.name} {{μ : Type}} [MemLike μ] (cfg : Cfg) {sig} (s : St μ) : St μ := Id.run do'.replace('  ', ' ')]
     out.append('  let mut regs := s.reg')
     out.append('  let mut memv := s.mem')
     for v, f in FIELD.items():
@@ -747,6 +747,16 @@ def translate_handler(meth, tables, cmio=False):
                'memptr := rMEMPTR, ins := ins, outs := outs, inLog := inLog }')
     return Handler(meth.name, params, defaults, '\n'.join(out), kinds)
 
+
+ROLE = {
+    'timing': '0 ≤ {v}', 'size': '1 ≤ {v} ∧ {v} ≤ 4',
+    'r': '0 ≤ {v} ∧ {v} ≤ 23', 'rh': '0 ≤ {v} ∧ {v} ≤ 23', 'rl': '0 ≤ {v} ∧ {v} ≤ 23', 'xyh': '0 ≤ {v} ∧ {v} ≤ 23',
+    'xyl': '0 ≤ {v} ∧ {v} ≤ 23', 'ah': '0 ≤ {v} ∧ {v} ≤ 23', 'al': '0 ≤ {v} ∧ {v} ≤ 23', 'r1': '0 ≤ {v} ∧ {v} ≤ 23',
+    'r2': '0 ≤ {v} ∧ {v} ≤ 23', 'reg': '-1 ≤ {v} ∧ {v} ≤ 23', 'dest': '-1 ≤ {v} ∧ {v} ≤ 23',
+    'b': '0 ≤ {v} ∧ {v} ≤ 7', 'bit': '0 ≤ {v} ∧ {v} ≤ 255', 'c_and': '0 ≤ {v} ∧ {v} ≤ 255', 'c_val': '0 ≤ {v} ∧ {v} ≤ 255',
+    'inc': '{v} = 1 ∨ {v} = -1', 'repeat': '0 ≤ {v} ∧ {v} ≤ 1', 'addr': '0 ≤ {v} ∧ {v} ≤ 65535',
+    'iff': '0 ≤ {v} ∧ {v} ≤ 1', 'mode': '0 ≤ {v} ∧ {v} ≤ 2',
+}
 
 SKIP_METHODS = {'__init__', 'set_tracer', 'run', 'accept_interrupt', 'prefix', 'prefix2', 'create_opcodes',
                 'djnz_fast', 'ldir_fast', 'contend_48k', 'contend_128k', 'io_contention_48k', 'io_contention_128k'}
@@ -857,7 +867,7 @@ def gen_sim(repo, cmio=False):
     disp, order = parse_dispatch(create, handlers, tables)
     ns = 'Cmio' if cmio else 'Sim'
     out = [f'-- GENERATED by translate/py2lean.py from {fn}. Do not edit.',
-           'import SkoolVerif.Prelude.Machine', 'import SkoolVerif.Gen.SimTables']
+           'import SkoolVerif.Prelude.Machine', 'import SkoolVerif.Prelude.Attrs', 'import SkoolVerif.Gen.SimTables']
     if cmio:
         out.append('import SkoolVerif.Model.Contend')
     out += ['set_option linter.unusedVariables false', 'open Z80', f'namespace {ns}', '']
@@ -872,6 +882,20 @@ def gen_sim(repo, cmio=False):
     out.append('  | prefix_ (tbl : OpTbl)')
     out.append('  | prefix2_ (tbl : OpTbl)')
     out.append('  deriving DecidableEq, Repr, Inhabited\n')
+    out.append('/-- Argument well-formedness (by parameter role); every dispatch-table entry is checked to satisfy it. -/')
+    out.append('def instrWf : Instr → Bool')
+    for h in handlers.values():
+        ps = ' '.join(lname(p) for p in h.params)
+        conds = []
+        for p in h.params:
+            if h.kinds[p] != 'int':
+                continue
+            if p not in ROLE:
+                raise Unsupported(f'{fn}: {h.name}: no well-formedness role for parameter {p}')
+            conds.append('decide (' + ROLE[p].format(v=lname(p)) + ')')
+        out.append(f'  | .{h.name} {ps} => ' .replace('  =>', ' =>') + (' && '.join(conds) if conds else 'true'))
+    out.append('  | .prefix_ _ => true')
+    out.append('  | .prefix2_ _ => true\n')
     out.append('/-- Run one (non-prefix) closure. -/')
     out.append('def execLeaf {μ : Type} [MemLike μ] (cfg : Cfg) : Instr → St μ → St μ')
     for h in handlers.values():
@@ -885,9 +909,11 @@ def gen_sim(repo, cmio=False):
         for i, e in enumerate(ents):
             out.append(f'  {e}{"," if i < 255 else ""}')
         out.append(']\n')
-    out.append('def OpTbl.get : OpTbl → Int → Instr')
+    out.append('def OpTbl.arr : OpTbl → Array Instr')
     for name in order:
-        out.append(f'  | .{TBLNAME[name]}, i => tbl_{TBLNAME[name]}.getD i.toNat (.prefix_ .MAIN)')
+        out.append(f'  | .{TBLNAME[name]} => tbl_{TBLNAME[name]}')
+    out.append('def OpTbl.all : List OpTbl := [.MAIN, .CB, .ED, .DD, .FD, .DDCB, .FDCB]\n')
+    out.append('def OpTbl.get (t : OpTbl) (i : Int) : Instr := t.arr.getD i.toNat (.prefix_ .MAIN)')
     out.append('')
     out.append('''/-- `Simulator.prefix2`: DDCB/FDCB, opcode byte at PC+3. -/
 def exec2 {μ : Type} [MemLike μ] (cfg : Cfg) (i : Instr) (s : St μ) : St μ :=
